@@ -1,4 +1,4 @@
-\* exhaustive exploration of the milter scripts (quick: Full = FALSE, RandN = 1500; thorough: Full = TRUE, RandN = 50000); lib/checks/x07.py
+\* exhaustive exploration of the milter scripts (quick: Full = FALSE, RandN = 1500; thorough: Full = TRUE, RandN = 32000); lib/checks/x07.py
 SPECIFICATION Spec
 CONSTANTS
   MaxRcpt = 2
